@@ -29,7 +29,7 @@ def setup(ctx, label, tts, order=None, extra_mgr=False):
 
 OPS = ['and', 'xor', 'ite', 'quantify', 'apply_exists', 'apply_forall', 'let_bool', 'let_ref',
        'let_name', 'cube', 'var', 'copy', 'image', 'preimage', 'find_or_add', 'compose1',
-       'quantify_levels', 'cofactor_levels']
+       'quantify_levels', 'cofactor_levels', 'quantify_forall']
 
 
 def run_one(ctx, opname, tts, k, natural=None):
@@ -66,6 +66,10 @@ def run_one(ctx, opname, tts, k, natural=None):
     elif opname == 'quantify':
         r = M.op('quantify', u0, 'n', [0, 2], False)
         expect = T.exists(t0, n, [0, 2])
+    elif opname == 'quantify_forall':
+        # (the harness passes `forall=` by keyword, as BDD.forall does)
+        r = M.op('quantify', u0, 'n', [1, 3], True)
+        expect = T.forall(t0, n, [1, 3])
     elif opname == 'quantify_levels':
         # keys given as LEVELS (dd.bdd accepts both): the variables at those levels now
         r = M.op('quantify', u0, 'l', [0, 2], False)
